@@ -303,7 +303,8 @@ def main():
                                         "harness_rc": s.hrc, "stalled_then_rerun": s.stalled_retry} for t, s in streams], "totals": total},
         "evaluations": int(total.get("dumps", 0) or 0),
         "distinct_nontrivial": int(total.get("ops", 0) or 0) - int(total.get("hist", {}).get("new", 0)) + int(total.get("dumps", 0) or 0) - int(total.get("ops", 0) or 0),
-        "rule": "ops streams: random histories of 150..600 graph operations on <=28 live hlim nodes of 7 classes (every operation's full graph dump compared "
+        "rule": "ops streams: random histories of 150..600 graph operations (incl. createUnconnectedClone + re-attaching the source's clock, copySubnet with/without "
+                "copyClocks, destruction of clocks that nodes are attached to, 4 teardown orders) on <=34 live hlim nodes of 9 classes (every operation's full graph dump compared "
                 "with the model and checked with Inv); non-trivial = every operation other than node creation. design streams: random frontend designs "
                 "(20..45 statements, ~200..600 nodes: arithmetic/logic/compare/mux/slices/shifts/registers/IF-ELSE/areas/memories) dumped after construction "
                 "steps and at every pass boundary of 6 post-processing variants; each dump evaluated with Inv + every-node-grouped + type/width agreement.",
